@@ -1,7 +1,7 @@
 (* C16 — Reflecting and white surfaces become boundary conditions on the right
    surfaces.  Only restatements; proofs are in C16/Proofs.v. *)
 From Coq Require Import List NArith ZArith Bool String Ascii Lia.
-From T4V Require Import Base.Str C16.Model C16.Proofs.
+From T4V Require Import Base.Str C16.Model C16.Proofs C16.Trcl.
 Import ListNotations.
 Open Scope string_scope.
 
@@ -123,6 +123,106 @@ Theorem C16_bc_unused_refuted :
 Proof. exact bc_unused_refuted. Qed.
 Print Assumptions C16_bc_unused_refuted.
 
+(* ---- decks whose cells may carry TRCL (what the correspondence executes) -- *)
+
+(* [run] is [run_t] on decks whose cells are all converted and carry no TRCL,
+   so the statements about [run] above are statements about [run_t] *)
+Theorem C16_run_t_plain : forall (cfg : config) (cards : list scard) (cells : list cell),
+  run_t cfg cards (map plain cells) = run cfg cards cells.
+Proof. exact run_t_plain. Qed.
+Print Assumptions C16_run_t_plain.
+
+(* the surface dictionary after the TRCL loop: the parsed cards, then the
+   copies; all keys distinct; every copy carries the flag (and part count) of
+   a parsed card *)
+Theorem C16_expanded_table :
+  forall (t : table) (cells : list (bool * cell)) (t' : table) (cs : list tcell),
+  NoDup (map fst t) ->
+  apply_trcls cs t (N.succ (max_key t)) = Ok (cells, t') ->
+  NoDup (map fst t') /\
+  (forall k e, In (k, e) t -> In (k, e) t') /\
+  (forall k e, In (k, e) t' -> inherits t e).
+Proof. exact expanded_table. Qed.
+Print Assumptions C16_expanded_table.
+
+(* the main statement with TRCL, for every entry of the expanded dictionary
+   (a parsed card or the copy made for a literal of a cell with TRCL), under
+   the same guard: the entry's key bounds a converted cell that survives, and
+   de-duplication is off or the key is the smallest among its duplicates *)
+Theorem C16_bc_designates_present_same_locus_trcl :
+  forall (cfg : config) (cards : list scard) (tcells : list tcell) (t : table)
+         (cells : list (bool * cell)) (t' : table)
+         (surfs : list (N * N)) (bcs : list (kind * N)) (k : N) (e : entry),
+  skip_bc cfg = false ->
+  parse_cards cards [] = Ok t ->
+  apply_trcls tcells t (N.succ (max_key t)) = Ok (cells, t') ->
+  run_t cfg cards tcells = Ok (surfs, bcs) ->
+  In (k, e) t' -> (e_flag e = "*" \/ e_flag e = "+") ->
+  (exists c, In c (converted cells) /\
+             survives (negb (skip_dedup cfg)) (number_items t') c /\ bounds c k) ->
+  (skip_dedup cfg = true \/ smallest_dup (number_items t') k) ->
+  In (kind_of (e_flag e), k) bcs /\ In (k, e_first e) surfs.
+Proof. exact bc_designates_present_same_locus_trcl. Qed.
+Print Assumptions C16_bc_designates_present_same_locus_trcl.
+
+(* every literal of a cell with TRCL gets a copy that carries the flag of the
+   surface it names and the transformed descriptor; when that flag is a star
+   or a plus the copy has its own entry of that kind *)
+Theorem C16_trcl_copy_has_entry :
+  forall (cfg : config) (cards : list scard) (tcells : list tcell)
+         (surfs : list (N * N)) (bcs : list (kind * N)) (c : tcell) (l : lit),
+  skip_bc cfg = false ->
+  run_t cfg cards tcells = Ok (surfs, bcs) ->
+  In c tcells -> tc_trcl c = true -> In l (tc_lits c) ->
+  exists t' e k',
+    dict_get (Z.abs_N (l_z l)) t' = Some e /\
+    In (k', mkE (e_flag e) (e_mcnp e) (l_cls l) (l_aux l)) t' /\
+    ((e_flag e = "*" \/ e_flag e = "+") -> In (kind_of (e_flag e), k') bcs).
+Proof. exact trcl_copy_has_entry. Qed.
+Print Assumptions C16_trcl_copy_has_entry.
+
+(* unflagged surfaces yield none: a deck without a flagged card has no entry,
+   whatever its cells and their TRCL *)
+Theorem C16_unflagged_deck_no_entries :
+  forall (cfg : config) (cards : list scard) (tcells : list tcell)
+         (surfs : list (N * N)) (bcs : list (kind * N)),
+  (forall t k e, parse_cards cards [] = Ok t -> In (k, e) t -> e_flag e = "") ->
+  run_t cfg cards tcells = Ok (surfs, bcs) -> bcs = [].
+Proof. exact unflagged_deck_no_entries. Qed.
+Print Assumptions C16_unflagged_deck_no_entries.
+
+(* a flag on a macrobody stops the run, with TRCL cells too *)
+Theorem C16_macrobody_flag_stops_run_t :
+  forall (cfg : config) (cards : list scard) (tcells : list tcell) (t : table) (k : N) (e : entry),
+  skip_bc cfg = false -> parse_cards cards [] = Ok t ->
+  In (k, e) t -> e_flag e <> "" -> (1 < e_mcnp e)%nat ->
+  exists err, run_t cfg cards tcells = Err err.
+Proof. exact macrobody_flag_stops_run_t. Qed.
+Print Assumptions C16_macrobody_flag_stops_run_t.
+
+(* *2 PX 0 used only by a cell with TRCL=(1 0 0): one flagged surface bounding
+   a converted cell yields two entries; the one for the copy (7) designates a
+   written SURF, the one for the original designates nothing, with and without
+   de-duplication (finding class bc_on_trcl_original_surface) *)
+Theorem C16_bc_trcl_original_refuted :
+  forall sd, exists surfs,
+    run_t (mkCfg sd false) w_trcl_cards w_trcl_cells =
+      Ok (surfs, [(Reflection, 2%N); (Reflection, 7%N)]) /\
+    In (7%N, 8%N) surfs /\ ~ In 2%N (map fst surfs).
+Proof. exact bc_trcl_original_refuted. Qed.
+Print Assumptions C16_bc_trcl_original_refuted.
+
+(* *2 PX 0 used by a cell with TRCL=(0 0 0) and by a plain cell,
+   de-duplication on: the copy 7 equals 2, is renamed to 2, keeps its entry
+   (finding class bc_on_deduplicated_trcl_copy) *)
+Theorem C16_bc_trcl_copy_dedup_refuted :
+  exists surfs bcs,
+    run_t (mkCfg false false) w_copy_cards w_copy_cells = Ok (surfs, bcs) /\
+    In (Reflection, 7%N) bcs /\ ~ In 7%N (map fst surfs) /\
+    In (Reflection, 2%N) bcs /\ In (2%N, 7%N) surfs.
+Proof. exact bc_trcl_copy_dedup_refuted. Qed.
+Print Assumptions C16_bc_trcl_copy_dedup_refuted.
+
 (* quirk of conversionBoundCond: a flag that is neither one star nor one plus
    (the card regex accepts any run of them) is an UnboundLocalError when it
    comes first and silently takes the previous entry's kind otherwise *)
@@ -158,4 +258,28 @@ Proof.
     + left. left. reflexivity.
   - intros d k' Hd Hin. vm_compute in Hd. inversion Hd; subst d. vm_compute in Hin.
     destruct Hin as [H|[H|[H|[H|[]]]]]; inversion H; subst; lia.
+Qed.
+
+(* non-vacuity with TRCL: *2 PX 0 used only by a cell with TRCL=(1 0 0),
+   de-duplication on; the copy 7 (PX 1) satisfies every hypothesis of
+   C16_bc_designates_present_same_locus_trcl *)
+Example C16_example_trcl :
+  exists t cells t' e,
+    parse_cards w_trcl_cards [] = Ok t /\
+    apply_trcls w_trcl_cells t (N.succ (max_key t)) = Ok (cells, t') /\
+    In (7%N, e) t' /\ e_flag e = "*" /\ e_first e = 8%N /\
+    (exists c, In c (converted cells) /\ survives true (number_items t') c /\ bounds c 7) /\
+    smallest_dup (number_items t') 7.
+Proof.
+  eexists. eexists. eexists. eexists.
+  split; [vm_compute; reflexivity|].
+  split; [vm_compute; reflexivity|].
+  split; [do 4 right; left; reflexivity|].
+  split; [reflexivity|]. split; [reflexivity|].
+  split.
+  - exists (1%N, [(-6)%Z; 7%Z; (-8)%Z]). split; [left; reflexivity|]. split.
+    + exists [7%N], [6%N; 4%N]. repeat split; vm_compute; reflexivity.
+    + left. left. reflexivity.
+  - intros d k' Hd Hin. vm_compute in Hd. inversion Hd; subst d. vm_compute in Hin.
+    destruct Hin as [H|[H|[H|[H|[H|[H|[]]]]]]]; inversion H; subst; lia.
 Qed.
